@@ -185,5 +185,9 @@ def run(chk, prog):
         else:
             chk.check(imp == "rdtn_impedance" and sp_arg.get("value") == 0, "R5", site,
                       "the radiation field uses the radiation impedance with spacing 0 (one padded bunch)", "main:rdtn-field:%s" % imp)
+    # ---- RD: dimensional consistency of the quantities this property depends on (sa/dims.py) ----------------------------------------
+    from . import dimrules
+    nrd = dimrules.run(chk, prog, "RD")
+    chk.floor("RD-requirements", nrd or 0, 2)
     chk.notes.append("C06: padded-layout writer/reader agreement, plan/buffer pipeline, half-spectrum range, 1/N and physical scaling "
                      "normal forms, main wiring. Not decided: numerical equality with a reference DFT.")
